@@ -1,14 +1,13 @@
 (* NormalWorld.v — single-valuedness of formal attributes as an invariant of worlds.
    SingleProofs.v shows that add_attributes keeps NormalE (every formal attribute other than prov:entity holds at most
    one value, of the kind it demands; every prov:entity value is a qualified name) whatever the call names and however
-   it ends.  Here the invariant is carried through the interpreter: every record of every container of every document,
-   after any sequence of the calls C05 quantifies over — new_record, the typed factories and element methods,
-   add_attributes, set_time, add_asserted_type, with namespace calls, new bundles and all reading calls in between — and
-   of the deriving calls that re-create records one by one (add_record, update of a bundle, flattened, a document from
-   records, add_bundle of a document, the graph round trip).  Not carried (left to the per-run oracle): unified(),
-   update() of a document with bundles, and deserialisation. *)
+   it ends.  Here the invariant is carried through the whole interpreter: every record of every container of every
+   document, after any sequence of calls — those C05 quantifies over (new_record, the typed factories and element
+   methods, add_attributes, set_time, add_asserted_type) and every other one (namespace calls, bundles, reading and
+   exporting calls, add_record, update, flattened, unified, a document from records, add_bundle of a document, the
+   graph round trip, PROV-JSON deserialisation): every record any of them builds goes through new_record. *)
 From Coq Require Import String List Arith ZArith Bool.
-From Prov Require Import Str Sexp Tables Nsm NsmProofs Scope Values Record RecordProofs SingleProofs World WorldProofs Derive Interp InterpProofs.
+From Prov Require Import Str Sexp Tables Nsm NsmProofs Scope Values Record RecordProofs SingleProofs World WorldProofs Derive Jtree Json Interp InterpProofs.
 Import ListNotations.
 Open Scope string_scope.
 
@@ -172,14 +171,190 @@ Proof.
   constructor; [exact G | constructor].
 Qed.
 
-(* ---- the calls carried *)
-Definition carried (o : op) : bool :=
-  match o with
-  | OUnified _ | OLoadJson _ => false
-  | OUpdate (CDoc _) (CDoc _) => false
-  | _ => true
-  end.
 
+(* ---- update between documents, unified, deserialisation: every record they build goes through new_record *)
+Lemma nth_error_Forall_n : forall (l : list (string * bundle)) i k b,
+  Forall (fun kb => BNormal (snd kb)) l -> nth_error l i = Some (k, b) -> BNormal b.
+Proof. intros l i k b F H. rewrite Forall_forall in F. exact (F (k, b) (nth_error_In _ _ H)). Qed.
+
+Lemma merge_bundles_DNormal : forall ft bs dd dd' r,
+  DNormal dd -> merge_bundles ft dd bs = (dd', r) -> DNormal dd'.
+Proof.
+  induction bs as [|[k sb] bs IH]; intros dd dd' r D H; cbn [merge_bundles] in H.
+  - inversion H; subst. exact D.
+  - destruct sb as [[sid|] sm srecs sidmap]; [|inversion H; subst; exact D].
+    cbv zeta in H.
+    set (step1 := match find (fun ib => String.eqb (fst (snd ib)) (qn_uri sid))
+                             (combine (seq 0 (length (dbundles dd))) (dbundles dd)) with
+                  | Some (i, _) => (dd, OK i)
+                  | None => match doc_new_bundle dd (Some (NQn sid)) ft with
+                            | (dd1, OK _) => (dd1, OK (length (dbundles dd1) - 1))
+                            | (dd1, Raise e) => (dd1, Raise e)
+                            | (dd1, OutOfDomain) => (dd1, OutOfDomain)
+                            end
+                  end) in *.
+    assert (S1 : DNormal (fst step1)).
+    { unfold step1. destruct (find _ _) as [[i x]|]; [assumption|].
+      destruct (doc_new_bundle dd (Some (NQn sid)) ft) as [dd1 [y|e|]] eqn:EN; cbn [fst];
+        exact (doc_new_bundle_DNormal _ _ _ _ _ D EN). }
+    destruct step1 as [dd1 [i|e|]]; cbn [fst] in S1; try (inversion H; subst; exact S1).
+    destruct (nth_error (dbundles dd1) i) as [[k1 tb]|] eqn:EN; [|inversion H; subst; exact S1].
+    destruct S1 as [M1 B1].
+    pose proof (nth_error_Forall_n _ _ _ _ B1 EN) as GTB.
+    destruct (add_records (Some (bns (dmain dd1))) ft tb srecs) as [tb' [y|e|]] eqn:EA;
+      pose proof (add_records_BNormal _ _ _ _ _ _ GTB EA) as GT.
+    + eapply IH; [|exact H]. split; cbn; [exact M1 | apply Forall_set_nth; assumption].
+    + inversion H; subst. split; cbn; [exact M1 | apply Forall_set_nth; assumption].
+    + inversion H; subst. split; assumption.
+Qed.
+
+Lemma bundle_unified_BNormal : forall ft b nb, bundle_unified ft b = OK nb -> BNormal nb.
+Proof.
+  intros ft b nb H. unfold bundle_unified in H. destruct (unified_records ft b) as [u|e|]; try discriminate.
+  destruct (add_records None ft (bundle_init (bid b)) u) as [nb' [y|e|]] eqn:EA; try discriminate.
+  inversion H; subst. exact (add_records_BNormal _ _ _ _ _ _ (BNormal_init _) EA).
+Qed.
+
+Lemma attach_bundle_DNormal : forall dd b dd' r, DNormal dd -> BNormal b -> attach_bundle dd b = (dd', r) -> DNormal dd'.
+Proof.
+  intros dd b dd' r [M B] Gb H. unfold attach_bundle in H. destruct (bid b) as [i|]; [|inversion H; subst; split; assumption].
+  destruct (resolve (Some (bns (dmain dd))) (bns b) (NQn i)) as [[m [q|]]|e|]; try (inversion H; subst; split; assumption).
+  destruct (mem (qn_uri q) (dbundles dd)); inversion H; subst; split; cbn; try assumption.
+  apply Forall_app. split; [exact B|]. constructor; [exact Gb | constructor].
+Qed.
+
+Lemma unify_bundles_DNormal : forall ft bs nd nd', DNormal nd -> unify_bundles ft bs nd = OK nd' -> DNormal nd'.
+Proof.
+  induction bs as [|[k b] bs IH]; intros nd nd' D H; cbn [unify_bundles] in H.
+  - inversion H; subst. exact D.
+  - destruct (bundle_unified ft b) as [nb|e|] eqn:EU; try discriminate.
+    destruct (attach_bundle nd nb) as [nd1 [y|e|]] eqn:EA; try discriminate.
+    eapply IH; [|exact H]. exact (attach_bundle_DNormal _ _ _ _ D (bundle_unified_BNormal _ _ _ EU) EA).
+Qed.
+
+Lemma doc_unified_DNormal : forall ft dd nd, doc_unified ft dd = OK nd -> DNormal nd.
+Proof.
+  intros ft dd nd H. unfold doc_unified in H.
+  destruct (add_namespaces nsm_init (map snd (regd (bns (dmain dd))))) as [m0|] eqn:EN; [|discriminate].
+  destruct (unified_records ft (dmain dd)) as [u|e|]; try discriminate.
+  set (m1 := match dflt (bns (dmain dd)) with Some dn => set_default m0 (ns_uri dn) | None => m0 end) in *.
+  destruct (add_records None ft (mkB None m1 [] []) u) as [nmain [y|e|]] eqn:EA; try discriminate.
+  eapply unify_bundles_DNormal; [|exact H]. split; [|constructor].
+  refine (add_records_BNormal None ft u (mkB None m1 [] []) nmain (OK y) _ EA). constructor.
+Qed.
+
+Lemma add_members_BNormal : forall par ft ms b coll b' r,
+  BNormal b -> add_members par ft b coll ms = (b', r) -> BNormal b'.
+Proof.
+  induction ms as [|mv ms IH]; intros b coll b' r C H; cbn [add_members] in H.
+  - inversion H; subst; exact C.
+  - destruct (vqn par (bns b) mv) as [q|e|]; try (inversion H; subst; exact C).
+    destruct (factory_call par ft b "membership" None _ []) as [b1 [y|e|]] eqn:E;
+      pose proof (factory_call_BNormal _ _ _ _ _ _ _ _ _ C E) as C1.
+    + eapply IH; eauto.
+    + inversion H; subst. exact C1.
+    + inversion H; subst. exact C1.
+Qed.
+
+Lemma decode_elements_BNormal : forall par ft kind rec_id els b b' r,
+  BNormal b -> decode_elements par ft b kind rec_id els = (b', r) -> BNormal b'.
+Proof.
+  induction els as [|e els IH]; intros b b' r C H; cbn [decode_elements] in H.
+  - inversion H; subst; exact C.
+  - destruct e as [ | | | | | |members]; try (inversion H; subst; exact C).
+    destruct (decode_element par (bns b) kind members _) as [acc|e|]; try (inversion H; subst; exact C).
+    destruct (new_record par ft b kind _ _) as [b1 [y|e|]] eqn:EN;
+      pose proof (new_record_BNormal _ _ _ _ _ _ _ _ C EN) as C1;
+      try (inversion H; subst; exact C1).
+    destruct (acc_members acc) as [|m0 ms]; [eapply IH; eauto|].
+    destruct (find _ (acc_formal acc)) as [[k v]|]; [|inversion H; subst; exact C1].
+    destruct (add_members par ft b1 v (m0 :: ms)) as [b2 [y2|e|]] eqn:EM;
+      pose proof (add_members_BNormal _ _ _ _ _ _ _ C1 EM) as C2.
+    + eapply IH; eauto.
+    + inversion H; subst. exact C2.
+    + inversion H; subst. exact C2.
+Qed.
+
+Lemma decode_records_BNormal : forall par ft kind entries b b' r,
+  BNormal b -> decode_records par ft b kind entries = (b', r) -> BNormal b'.
+Proof.
+  induction entries as [|[rid content] entries IH]; intros b b' r C H; cbn [decode_records] in H.
+  - inversion H; subst; exact C.
+  - destruct (match content with JObj _ => Some [content] | JArr l => Some l | _ => None end) as [l|];
+      [|inversion H; subst; exact C].
+    destruct (decode_elements par ft b kind rid l) as [b1 [y|e|]] eqn:E;
+      pose proof (decode_elements_BNormal _ _ _ _ _ _ _ _ C E) as C1.
+    + eapply IH; eauto.
+    + inversion H; subst. exact C1.
+    + inversion H; subst. exact C1.
+Qed.
+
+Lemma decode_kinds_BNormal : forall par ft jc b b' r,
+  BNormal b -> decode_kinds par ft b jc = (b', r) -> BNormal b'.
+Proof.
+  induction jc as [|[lbl content] jc IH]; intros b b' r C H; cbn [decode_kinds] in H.
+  - inversion H; subst; exact C.
+  - destruct (kind_of_label lbl) as [kind|]; [|inversion H; subst; exact C].
+    destruct (String.eqb kind "Bundle"); [inversion H; subst; exact C|].
+    destruct content as [ | | | | | |entries]; try (inversion H; subst; exact C).
+    destruct (decode_records par ft b kind entries) as [b1 [y|e|]] eqn:E;
+      pose proof (decode_records_BNormal _ _ _ _ _ _ _ C E) as C1.
+    + eapply IH; eauto.
+    + inversion H; subst. exact C1.
+    + inversion H; subst. exact C1.
+Qed.
+
+Lemma decode_container_BNormal : forall par ft b jc b' r,
+  BNormal b -> decode_container par ft b jc = (b', r) -> BNormal b'.
+Proof.
+  intros par ft b jc b' r C H. unfold decode_container in H.
+  destruct (lookup "prefix" jc) as [[ | | | | | |ps]|]; try (inversion H; subst; exact C).
+  - destruct (decode_prefixes (bns b) ps) as [m|e|] eqn:EP; try (inversion H; subst; exact C).
+    eapply decode_kinds_BNormal; [|exact H]. exact C.
+  - eapply decode_kinds_BNormal; eauto.
+Qed.
+
+Lemma attach_decoded_DNormal : forall dd b i dd' r,
+  DNormal dd -> BNormal b -> attach_decoded dd b i = (dd', r) -> DNormal dd'.
+Proof.
+  intros dd b i dd' r [M B] C H. unfold attach_decoded in H.
+  destruct i as [q0|]; [|inversion H; subst; split; assumption].
+  destruct (resolve _ (bns b) (NQn q0)) as [[m [q|]]|e|]; try (inversion H; subst; split; assumption).
+  destruct (mem (qn_uri q) (dbundles dd)); inversion H; subst; split; cbn; try assumption.
+  apply Forall_app. split; [exact B|]. constructor; [exact C | constructor].
+Qed.
+
+Lemma decode_bundles_DNormal : forall ft bs dd dd' r,
+  DNormal dd -> decode_bundles ft dd bs = (dd', r) -> DNormal dd'.
+Proof.
+  induction bs as [|[bid_str content] bs IH]; intros dd dd' r D H; cbn [decode_bundles] in H.
+  - inversion H; subst; exact D.
+  - destruct content as [ | | | | | |jc]; try (inversion H; subst; exact D).
+    cbv zeta in H.
+    destruct (decode_container _ ft (bundle_init None) jc) as [b [y|e|]] eqn:EC;
+      try (inversion H; subst; exact D).
+    pose proof (decode_container_BNormal _ _ _ _ _ _ (BNormal_init None) EC) as Cb.
+    destruct (resolve _ (bns b) (NStr bid_str)) as [[m i]|e|]; try (inversion H; subst; exact D).
+    destruct (attach_decoded dd (with_ns b m) i) as [dd1 [y1|e|]] eqn:EA;
+      pose proof (attach_decoded_DNormal dd (with_ns b m) i dd1 _ D Cb EA) as D1.
+    + eapply IH; eauto.
+    + inversion H; subst. exact D1.
+    + inversion H; subst. exact D1.
+Qed.
+
+Lemma decode_doc_DNormal : forall ft t nd, decode_doc ft t = OK nd -> DNormal nd.
+Proof.
+  intros ft t nd H. unfold decode_doc in H.
+  destruct t as [ | | | | | |content]; try discriminate.
+  destruct (match lookup "bundle" content with
+            | Some (JObj bs) => Some bs | None => Some [] | _ => None end) as [bs|]; [|discriminate].
+  destruct (decode_container None ft (bundle_init None) _) as [b [y|e|]] eqn:EC; try discriminate.
+  pose proof (decode_container_BNormal _ _ _ _ _ _ (BNormal_init None) EC) as Cb.
+  destruct (decode_bundles ft (mkD b []) bs) as [dd [y2|e|]] eqn:EB; inversion H; subst.
+  eapply decode_bundles_DNormal; [|exact EB]. split; [exact Cb | constructor].
+Qed.
+
+(* ---- every call of the interpreter *)
 Ltac norm_r :=
   first
     [ assumption
@@ -204,6 +379,9 @@ Ltac norm_d :=
     | apply DNormal_main; norm_b
     | eapply doc_new_bundle_DNormal; [ | eassumption ]; norm_d
     | eapply graph_to_prov_DNormal; eassumption
+    | eapply merge_bundles_DNormal; [ | eassumption ]; norm_d
+    | eapply doc_unified_DNormal; eassumption
+    | eapply decode_doc_DNormal; eassumption
     | apply DNormal_attach; [ norm_d | norm_b ]
     | eapply WNormal_get_doc; [ | eassumption ]; assumption ].
 
@@ -242,33 +420,34 @@ Ltac norm_upd :=
       apply WNormal_set_cont; [ assumption | apply BNormal_upd; [ norm_b | first [ norm_aa | norm_time ] ] ]
   end.
 
-Theorem step_WNormal : forall w o, carried o = true -> WNormal w -> WNormal (fst (step w o)).
+Theorem step_WNormal : forall w o, WNormal w -> WNormal (fst (step w o)).
 Proof.
-  intros w o C W.
+  intros w o W.
   destruct o as [ |c p u|c u|c x|t x|c k i attrs|c f i args other|[c i] attrs|[c i] s e|[c i] v
                  |c r|c o|t src x order|t|t|c|c x|c cls|a b|a b|t|jt|t|t|t| ];
-    try discriminate C.
-  12: destruct c, o; try discriminate C.
+    idtac.
   all: cbn [step]; unfold with_cont; cbn [fst snd].
   all: norm_step.
   all: try norm_upd.
+  assert (GB : BNormal b) by (eapply WNormal_get_cont; eassumption).
+  assert (GB1 : BNormal b1) by exact (add_records_BNormal _ _ _ _ _ _ GB Heqp).
+  assert (W1 : WNormal (set_cont w (CDoc d) b1)) by (apply WNormal_set_cont; assumption).
+  apply WNormal_set_doc; [exact W1|].
+  exact (merge_bundles_DNormal _ _ _ _ _ (WNormal_get_doc _ _ _ W1 Heqo2) Heqp0).
 Qed.
 
-Lemma fold_WNormal : forall ops w, forallb carried ops = true -> WNormal w ->
-  WNormal (fold_left (fun w o => fst (step w o)) ops w).
+Lemma fold_WNormal : forall ops w, WNormal w -> WNormal (fold_left (fun w o => fst (step w o)) ops w).
 Proof.
-  induction ops as [|o ops IH]; intros w C W; cbn [fold_left]; [exact W|].
-  cbn [forallb] in C. apply andb_true_iff in C. destruct C as [C1 C2].
-  apply IH; [exact C2 | apply step_WNormal; assumption].
+  induction ops as [|o ops IH]; intros w W; cbn [fold_left]; [exact W|].
+  apply IH, step_WNormal, W.
 Qed.
 
-(* every record of every world such a history builds *)
-Theorem reachable_WNormal : forall ft ops, forallb carried ops = true -> WNormal (wrun ft ops).
-Proof. intros ft ops C. unfold wrun. apply fold_WNormal; [exact C | constructor]. Qed.
+(* every record of every world any history builds *)
+Theorem reachable_WNormal : forall ft ops, WNormal (wrun ft ops).
+Proof. intros ft ops. unfold wrun. apply fold_WNormal. constructor. Qed.
 
-Theorem reachable_record_single_valued : forall ft ops r p,
-  forallb carried ops = true -> get_rec (wrun ft ops) r = Some p -> NormalE p.
-Proof. intros ft ops r p C G. eapply WNormal_get_rec; [apply reachable_WNormal; exact C | exact G]. Qed.
+Theorem reachable_record_single_valued : forall ft ops r p, get_rec (wrun ft ops) r = Some p -> NormalE p.
+Proof. intros ft ops r p G. eapply WNormal_get_rec; [apply reachable_WNormal | exact G]. Qed.
 
 (* what NormalE says, spelled out for one record *)
 Lemma NormalE_formal_single : forall r a, NormalE r -> is_formal_attr a = true -> is_prov_name "entity" a = false ->
